@@ -89,7 +89,7 @@ theorem client_run_router (T : Tables) (raises : Nat → Cb → Bool) (h : List 
 /-! ### the invariant tying the client to the abstract registry -/
 
 def COp.WF : COp → Prop
-  | .addMatch _ a => a.WF
+  | .addMatch _ a => a.WFAll
   | _ => True
 
 def Reg.textEntry (g : Reg) : Nat × Str := (g.id, renderRule g.args)
@@ -97,7 +97,7 @@ def Reg.textEntry (g : Reg) : Nat × Str := (g.id, renderRule g.args)
 structure CInv (c : Client) (g : SpecRouter) : Prop where
   sim : Sim c.router g
   texts : c.matchRules = g.live.map Reg.textEntry
-  pending : ∀ (k : Nat) (cb : Cb) (a : RuleArgs) (text : Str), c.calls[k]? = some (some (Pending.addOk cb a text)) → text = renderRule a ∧ a.WF
+  pending : ∀ (k : Nat) (cb : Cb) (a : RuleArgs) (text : Str), c.calls[k]? = some (some (Pending.addOk cb a text)) → text = renderRule a ∧ a.WFAll
 
 theorem lookup_textEntry (l : List Reg) (id : Nat) :
     ((l.map Reg.textEntry).lookup id).isSome = l.any (fun g => g.id = id) := by
@@ -203,7 +203,7 @@ theorem cinv_step (raises : Nat → Cb → Bool) (c : Client) (g : SpecRouter) (
       | none => exact hc
       | some pend =>
         have hpend : ∀ j cb' a' text', (setNone k c.calls)[j]? = some (some (Pending.addOk cb' a' text')) →
-            text' = renderRule a' ∧ a'.WF :=
+            text' = renderRule a' ∧ a'.WFAll :=
           fun j cb' a' text' hj => hc.pending j cb' a' text' (getElem?_setNone _ _ _ _ hj)
         cases pend with
         | addOk cb a text =>
